@@ -3,7 +3,10 @@
 // Exports for the verification harness (/verif). Compiled only with -tags verif.
 package proxy
 
-import "github.com/datastax/go-cassandra-native-protocol/primitive"
+import (
+	"github.com/datastax/cql-proxy/proxycore"
+	"github.com/datastax/go-cassandra-native-protocol/primitive"
+)
 
 // VerifParseProtocolVersion exposes parseProtocolVersion.
 func VerifParseProtocolVersion(s string) (primitive.ProtocolVersion, bool) {
@@ -34,4 +37,13 @@ func VerifSetWriteConsistencyOverride(config *Config, unsupported []primitive.Co
 		config.UnsupportedWriteConsistencies = append(config.UnsupportedWriteConsistencies, clWrapper{cl})
 	}
 	config.UnsupportedWriteConsistencyOverride = clWrapper{override}
+}
+
+// VerifSessionPools reports the pool table (host key -> pool alive) of the session with this key, nil when there is none.
+func VerifSessionPools(p *Proxy, version primitive.ProtocolVersion, keyspace, compression string) map[string]bool {
+	s, ok := p.lookupSession(sessionKey{version: version, keyspace: keyspace, compression: compression})
+	if !ok {
+		return nil
+	}
+	return proxycore.VerifPools(s)
 }
